@@ -13,7 +13,8 @@ TEXT_POSIT_SMALL = [(2,0),(3,0),(3,1),(4,0),(4,1),(4,2),(5,0),(5,1),(5,2),(6,0),
 TEXT_POSIT_LARGE = [(13,1),(16,1),(16,2),(20,1),(24,2),(28,3),(32,2),(32,3),(33,2),(48,2),(63,3),(64,2),(64,3),(80,2),(128,4)]
 TEXT_INT_SMALL = [(4,1),(6,1),(7,1),(8,1),(9,1),(10,1),(11,1),(12,1),(8,2),(12,2),(13,2),(9,4),(12,4)]
 TEXT_INT_LARGE = [(15,2),(16,1),(16,2),(16,4),(24,1),(31,4),(32,1),(32,2),(32,4),(32,8),(33,1),(63,8),(64,1),(64,4),(64,8),
-                  (100,1),(100,4),(128,2),(128,4)]
+                  (100,1),(100,4),(128,2),(128,4),
+                  (14,2),(29,4),(30,4),(59,8),(60,8)]      # either side of 10^k < 2^nbits (operator<< working type, D19 repair)
 
 
 def text_streams(tier, seed, exes):
@@ -69,9 +70,11 @@ CONTRIB = {
                    "every implementation output is judged by spec predicates built on Lean's own decimal printer",
         level_note="trusted: Lean kernel, hand-written models (tied by correspondence on explored inputs only), std::regex / "
                    "iostream extraction contracts (transcribed: regexes reduced to their languages, num_get to prefix "
-                   "parsing with clamping), g++ 12.2; the harness fixes the C locale. Round-trip theorems carry the guards under "
-                   "which they hold on the pinned tree (4 | nbits <= 64 for posit hex, 8 | nbits for integer hex, 10^k < 2^nbits "
-                   "for integer operator<<); the regions outside are known findings with negation witnesses in Props/C16.lean",
+                   "parsing with clamping), g++ 12.2; the harness fixes the C locale. After the repairs of D18, D19, D20, the hex "
+                   "sign and the two edecimal parse defects the integer hex round trip, integer operator<< and edecimal parse "
+                   "theorems are unguarded (all widths, block widths, text lengths); the posit hex round trip still carries "
+                   "nbits <= 64 (parse extracts into a uint64_t) and a leading-zero decimal text is still taken for octal: "
+                   "both are known findings with negation witnesses in Props/C16.lean",
         explanation="text forms: format -> parse round trips of every encoding (posit nbits.esxHEXp, cfloat/fixpnt 0b strings, "
                     "integer 0x strings), decimal output compared with the exact decimal expansion, decimal/hex digit strings "
                     "(leading zeros, signs, maximal length, one past capacity) compared with the integer they denote mod 2^nbits",
